@@ -109,18 +109,14 @@ theorem content_base_clamped :
                         { item with id := 1, grow := 1, sWidth := some 20, sHeight := some 5 }]) =
       some [(0, 0, 50, 5), (50, 0, 50, 5)] := by decide +kernel
 
-/-- id=flex-negative-factor-accepted.  `flex:1 1 0` next to `flex-grow:-1; flex-basis:0` in 100px: the validator
-lets the (invalid) negative factor through, the factors sum to 0 and nothing is distributed: the first item is 0px
-wide (100px expected: a negative `flex-grow` is invalid, the declaration is ignored). -/
-theorem negative_factor_accepted :
+/-- fixed id=flex-negative-factor-accepted (c151619).  `flex:1 1 0` next to `flex-grow:-1; flex-basis:0` in 100px:
+the validator rejects the negative factor, the declaration is ignored (`computedFactor (-1) 0 = 0`) and the first
+item takes the whole width (was 0px: the factors summed to 0 and nothing was distributed). -/
+theorem negative_factor_rejected_fixed :
+    computedFactor (-1) 0 = 0 ∧ computedFactor (-1/2) 1 = 1 ∧
     rects (layout rowC [{ flex110 with sHeight := some 5 },
-                        { item with id := 1, grow := -1, basis := .px 0, sHeight := some 5 }]) =
-      some [(0, 0, 0, 5), (0, 0, 0, 5)] := by decide +kernel
-
-/-- with the factor the declaration falls back to (0) the first item takes the whole width -/
-example : rects (layout rowC [{ flex110 with sHeight := some 5 },
-                              { item with id := 1, grow := 0, basis := .px 0, sHeight := some 5 }]) =
-    some [(0, 0, 100, 5), (100, 0, 0, 5)] := by decide +kernel
+                        { item with id := 1, grow := computedFactor (-1) 0, basis := .px 0, sHeight := some 5 }]) =
+      some [(0, 0, 100, 5), (100, 0, 0, 5)] := by decide +kernel
 
 end Flex
 
@@ -229,24 +225,25 @@ theorem justify_self_content_width_fixed :
     grects (layout gridC [{ gitem with sWidth := some 20, pl := 5, pr := 5, justifySelf := .other }]) =
       some [(0, 0, 30, 5)] := by decide +kernel
 
-/-- id=grid-named-span-from-last-line.  `grid-column: 3 / span 2 foo` on two columns (three lines, none called
-`foo`): the two implicit lines after the grid are assumed to be called `foo`, so the item spans 2 tracks
-`(2, 2)`; `_get_placement` answers `(2, 4)`: the loop over `lines[coord+1:]` is empty, `size` keeps its initial
-value 2 and `size += span_number` doubles it. -/
-theorem named_span_from_last_line :
-    (getPlacement (lineNo 3) (.mk true (some 2) (some "foo")) [[], [], []]).toOption = some (some (2, 4)) := by
+/-- fixed id=grid-named-span-from-last-line (cec57c9).  `grid-column: 3 / span 2 foo` on two columns (three lines,
+none called `foo`): the two implicit lines after the grid are assumed to be called `foo`, the item spans 2 tracks,
+`(2, 2)` (was `(2, 4)`: the span was doubled when `lines[coord+1:]` is empty). -/
+theorem named_span_from_last_line_fixed :
+    (getPlacement (lineNo 3) (.mk true (some 2) (some "foo")) [[], [], []]).toOption = some (some (2, 2)) := by
   decide +kernel
 
 /-- the same span from the line before is right: `2 / span 2 foo` ends on the second implicit line, `(1, 3)`. -/
 example : (getPlacement (lineNo 2) (.mk true (some 2) (some "foo")) [[], [], []]).toOption = some (some (1, 3)) := by
   decide +kernel
 
-/-- id=grid-backward-named-span-count.  `grid-column: span foo / 4` on lines `[foo] [foo] [foo] []`: the `foo`
-line before line 4 is line 3, i.e. `(2, 1)`; `_get_placement` counts with the integer of the *end* line (4),
-runs out of `foo` lines and answers `(-1, 4)`. -/
-theorem backward_named_span_count :
+/-- fixed id=grid-backward-named-span-count (5e11506).  `grid-column: span foo / 4` on lines `[foo] [foo] [foo] []`:
+the `foo` line before line 4 is line 3, i.e. `(2, 1)` (was `(-1, 4)`: the integer of the *end* line was used as the
+count); `span 2 foo / 4` goes back two `foo` lines, `(1, 2)`. -/
+theorem backward_named_span_count_fixed :
     (getPlacement (.mk true none (some "foo")) (lineNo 4) [["foo"], ["foo"], ["foo"], []]).toOption =
-      some (some (-1, 4)) := by decide +kernel
+      some (some (2, 1)) ∧
+    (getPlacement (.mk true (some 2) (some "foo")) (lineNo 4) [["foo"], ["foo"], ["foo"], []]).toOption =
+      some (some (1, 2)) := by decide +kernel
 
 /-- with an end line given by name only the count is the span's: `span foo / bar` is right, `(1, 2)`. -/
 example : (getPlacement (.mk true none (some "foo")) (.mk false none (some "bar"))
